@@ -3,6 +3,8 @@
 EXTENDS GenerateMC, ReactionGraph
 
 IGraph == GraphAgrees(st)
+(* state constraint for branched instances: the laws at the decisions do not depend on how large the molecule already is *)
+Bound == Len(st.main.res) <= 5 /\ Len(st.work.res) <= 7
 
 EdgeSet(td, kind, es) == {[from |-> <<td.tok, td.d>>, kind |-> kind, to |-> <<es[k].to.tok, es[k].to.d>>, p |-> es[k].p] : k \in 1..Len(es)}
 GraphJson == [nodes |-> NodeCount,
